@@ -658,7 +658,7 @@ func c07Loops(c *Ctx, p *Prog, fn *ssa.Function, chOf map[ssa.Value]*ssa.Call) {
 				}
 			}
 		}
-		foldsOut := loopExitsForZero(h, body, chOf)
+		foldsOut := loopExitsForZero(p, h, body, chOf)
 		c.Check(exitOnErr || foldsOut, "C07-R4", key+":leaves-at-EOF", p.pos(firstPos(h)), fmt.Sprintf("reads input (%d NextCh); exit on read error: %v; condition false for the zero byte: %v", len(calls), exitOnErr, foldsOut))
 	}
 	if n < 4 {
@@ -845,7 +845,7 @@ func firstPos(b *ssa.BasicBlock) token.Pos {
 
 // loopExitsForZero: starting at the loop header with every NextCh-derived byte equal to 0,
 // following only branch conditions that compare such a byte with a constant, is the loop left?
-func loopExitsForZero(h *ssa.BasicBlock, body map[*ssa.BasicBlock]bool, chOf map[ssa.Value]*ssa.Call) bool {
+func loopExitsForZero(p *Prog, h *ssa.BasicBlock, body map[*ssa.BasicBlock]bool, chOf map[ssa.Value]*ssa.Call) bool {
 	isCh := func(v ssa.Value) bool {
 		if _, ok := chOf[v]; ok {
 			return true
@@ -874,6 +874,28 @@ func loopExitsForZero(h *ssa.BasicBlock, body map[*ssa.BasicBlock]bool, chOf map
 				return false
 			}
 		case *ssa.If:
+			// a predicate of the module over the byte (`for isDigit(ch)`): decided for the zero byte by
+			// constant evaluation
+			if call, isCall := t.Cond.(*ssa.Call); isCall && p != nil {
+				hf := call.Call.StaticCallee()
+				if hf == nil || hf.Pkg != p.Terminfo || len(hf.Blocks) == 0 || len(hf.Params) != 1 || len(call.Call.Args) != 1 || !isCh(call.Call.Args[0]) {
+					return false
+				}
+				ce := &constEval{pk: p.pkg("terminfo"), globals: map[*ssa.Global]*cv{}, strings: true}
+				rets, err := ce.call(p, hf, map[*ssa.Parameter]*cv{hf.Params[0]: cvI(0)})
+				if err != nil || len(rets) != 1 || rets[0].kind != cvBool {
+					return false
+				}
+				if rets[0].b {
+					b = b.Succs[0]
+				} else {
+					b = b.Succs[1]
+				}
+				if b == h {
+					return false
+				}
+				continue
+			}
 			bo, ok := t.Cond.(*ssa.BinOp)
 			if !ok {
 				return false
